@@ -1380,3 +1380,88 @@ Proof.
   - exact Fa.
   - intros k R. apply H9. unfold rL in *. rewrite NL in R. exact R.
 Qed.
+
+Lemma filter_pos_lt A P i :
+  (forall p e a, In (p, e, a) A -> (p < P)%nat) ->
+  filter (fun d => Nat.eqb (o_inst d) i && Nat.ltb (o_pos d) P) (ACC A) = filter (fun d => Nat.eqb (o_inst d) i) (ACC A).
+Proof.
+  intros HP. pose proof (acc_pos_lt A P HP) as Q. induction (ACC A) as [|d r IH]; simpl; auto.
+  assert (L : Nat.ltb (o_pos d) P = true) by (apply Nat.ltb_lt; apply Q; left; reflexivity).
+  rewrite L, andb_true_r, IH by (intros d' I; apply Q; right; exact I). reflexivity.
+Qed.
+
+Lemma step_externall s A stk P fi fl :
+  Inv s A stk P fi fl -> stack s <> [] ->
+  Inv (step s EExternAll) (A ++ [(P, EExternAll, top stk)]) (step_ann EExternAll P stk) (S P) fi fl.
+Proof.
+  intros (g1 & g2 & g3 & g5) NE.
+  pose proof g1 as (H1 & H2 & H3 & H4 & H5 & H6 & H7 & H8 & H9 & H10).
+  destruct (tops _ _ _ _ _ H2 NE) as (f & r & a & q & E1 & E2 & FR & FRr & T1 & T2).
+  assert (HP : forall p e' a', In (p, e', a') A -> (p < P)%nat) by (intros p e' a' I0; destruct (H1 _ _ _ I0); lia).
+  destruct (nodef_spec A P EExternAll (top stk) I HP) as (AC & LA & AT & DD & HU).
+  assert (FI : In f (stack s)) by (rewrite E1; left; reflexivity).
+  destruct (H6 _ FI) as [RIf RLf]. pose proof FR as (F1 & F2 & F3 & F4).
+  destruct g3 as (X & I0 & U & IR).
+  set (mine := map snd (filter (fun p => N.eqb (fst p) (f_int f)) (isl s))).
+  set (s1 := fold_left (declare (f_int f)) mine s).
+  destruct (stack_fold_declare (f_int f) mine s) as (ST & NL & NI & IS & OU). fold s1 in ST, NL, NI, IS, OU.
+  assert (SY1 : syms s1 = syms s) by apply syms_fold_declare.
+  set (f' := {| f_isfile := f_isfile f; f_int := f_int f; f_loc := f_loc f; f_xall := true |}).
+  assert (S1 : step s EExternAll = with_stack s1 (f' :: r)).
+  { unfold step. rewrite T1. fold mine. fold s1. unfold set_xall. rewrite ST, E1. reflexivity. }
+  rewrite S1. simpl step_ann.
+  assert (XAe : forall j, XA (A ++ [(P, EExternAll, top stk)]) j = XA A j || (Nat.eqb (a_inst a) j && a_infile a)).
+  { intros j. unfold XA. rewrite existsb_app. simpl. rewrite T2, orb_false_r. reflexivity. }
+  assert (ACTe : acts_at (A ++ [(P, EExternAll, top stk)]) (ACC A) (P, EExternAll, top stk) =
+                 map (fun n => (lower n, fi (f_int f))) mine).
+  { simpl acts_at. rewrite (filter_pos_lt A P _ HP). rewrite T2, <- F2.
+    pose proof (I0 _ RIf) as Q. unfold mine.
+    rewrite map_map.
+    assert (G : forall (l : list odef), (forall d, In d l -> o_inst d = fi (f_int f)) ->
+                map (fun d => (o_name d, o_inst d)) l = map (fun ln => (ln, fi (f_int f))) (map o_name l)).
+    { induction l as [|d l' IHl]; simpl; intros Hl; auto. rewrite (Hl d) by (left; reflexivity). f_equal.
+      apply IHl. intros d' I'. apply Hl. right. exact I'. }
+    rewrite G.
+    - rewrite <- Q, map_map. reflexivity.
+    - intros d Id. apply filter_In in Id. destruct Id as [_ Id]. apply Nat.eqb_eq in Id. exact Id. }
+  refine (conj _ (conj _ (conj _ _))).
+  - unfold G1. simpl stack. simpl next_int. simpl next_loc. rewrite NI, NL.
+    refine (conj _ (conj _ (conj _ (conj H4 (conj H5 (conj _ (conj _ (conj H8 (conj _ H10))))))))).
+    + apply G1_pos_snoc; auto.
+    + rewrite E2. constructor.
+      * unfold frel, f'. simpl. refine (conj F1 (conj F2 (conj F3 _))). intros Fa.
+        rewrite XAe, Nat.eqb_refl, Fa. simpl. rewrite orb_true_r. reflexivity.
+      * (* deeper frames: another instance, or a block *)
+        assert (ND : forall a0, In a0 q -> a_infile a0 = true -> a_infile a = true -> a_inst a <> a_inst a0).
+        { intros a0 Ia0 Fa0 Fa Q. rewrite E2 in H4. simpl in H4. rewrite Fa in H4. simpl in H4.
+          inversion H4; subst. apply H11. rewrite Q. apply in_map. apply filter_In. auto. }
+        clear -FRr XAe ND. induction FRr; constructor.
+        -- destruct H as (G1' & G2' & G3' & G4'). refine (conj G1' (conj G2' (conj G3' _))). intros Fy.
+           rewrite XAe, (G4' Fy). destruct (a_infile a) eqn:Fa; [|rewrite andb_false_r, orb_false_r; reflexivity].
+           assert (Q : Nat.eqb (a_inst a) (a_inst y) = false).
+           { apply Nat.eqb_neq. apply ND; auto. left. reflexivity. }
+           rewrite Q. simpl. rewrite orb_false_r. reflexivity.
+        -- apply IHFRr. intros a0 Ia0. apply ND. right. exact Ia0.
+    + intros a0 Ia. destruct (H3 _ Ia). lia.
+    + intros f0 [<-|If]; simpl.
+      * split; assumption.
+      * apply H6. rewrite E1. right. exact If.
+    + intros k R. specialize (H7 _ R). lia.
+    + intros k R. specialize (H9 _ R). lia.
+  - apply (G2_mono s _ A _ fi fl fi fl g2); auto.
+    + intros k R. unfold rI in *. simpl. rewrite NI. exact R.
+    + intros k R. unfold rL in *. simpl. rewrite NL. exact R.
+  - unfold G3. rewrite AT, AC, DD, HU, ACTe. simpl isl. rewrite IS.
+    refine (conj _ (conj _ (conj _ _))).
+    + apply (XR_mono s1 _ _ fi fi _ (fold_declare_XR fi _ (f_int f) mine s (ACTS A) RIf X)); auto.
+      * simpl; tauto.
+    + intros k R. unfold rI in R. simpl in R. rewrite NI in R. auto.
+    + simpl errs. unfold s1. rewrite (errs_fold_declare_other _ _ _ unexpected_ne_dup). exact U.
+    + intros p Ip. unfold rI. simpl. rewrite NI. apply IR. exact Ip.
+  - unfold G5. rewrite refs_of_snoc, app_nil_r. simpl outs. rewrite OU.
+    eapply Forall2_impl'; [|exact g5]. intros o0 na Q.
+    apply (orel_mono s _ fi fl fi fl o0 na Q); auto.
+    + simpl. rewrite SY1. auto.
+    + intros k R. unfold rI in *. simpl. rewrite NI. exact R.
+    + intros k R. unfold rL in *. simpl. rewrite NL. exact R.
+Qed.
